@@ -1,5 +1,6 @@
 (* Eco/Alpine/Version.v — model of pkg/ecosystem/alpine/version.go (definitions only). *)
 From Verif.Base Require Import Bytes GoNum.
+From Verif.Gen Require Tables.
 From Verif.Eco Require Import VLayer.
 Local Open Scope N_scope.
 
@@ -28,21 +29,13 @@ Inductive core :=
 (* ---------- tables ---------- *)
 
 (* var suffixOrder = map[string]int{...} *)
-Definition suffixOrder : list (bytes * Z) := [
-  ($"alpha", 0%Z);
-  ($"beta", 1%Z);
-  ($"pre", 2%Z);
-  ($"rc", 3%Z);
-  ($"", 4%Z);
-  ($"cvs", 5%Z);
-  ($"svn", 6%Z);
-  ($"git", 7%Z);
-  ($"hg", 8%Z);
-  ($"p", 9%Z)
-].
+(* generated from the Go source on every run (tools/gen -> Gen/Tables.v) *)
+Definition suffixOrder : list (bytes * Z) :=
+  Eval cbv delta [Verif.Gen.Tables.alpine_suffixOrder] in Verif.Gen.Tables.alpine_suffixOrder.
 
 (* const unknownSuffixPrecedence = 1000 *)
-Definition unknownSuffixPrecedence : Z := 1000%Z.
+Definition unknownSuffixPrecedence : Z :=
+  Eval cbv delta [Verif.Gen.Tables.alpine_unknownSuffixPrecedence] in Verif.Gen.Tables.alpine_unknownSuffixPrecedence.
 
 (* ---------- versionPattern ----------
    Five consecutive groups, anchored at both ends:
